@@ -483,6 +483,43 @@ def run_gra_missing_domain(acc, spec):
                      f"raises:{type(e).__name__}", f"{type(e).__name__}: {e}", payload)
 
 
+def run_gra_missing_domain_all_have(acc, spec):
+    """A missing domain is an error of the call, whatever the model looks like: also when every targeted feature
+    already carries the attribute (nothing would have to be drawn)."""
+    from flamapy.core.exceptions import FlamaException
+    from flamapy.metamodels.fm_metamodel.models import Domain, Range
+    from flamapy.metamodels.fm_metamodel.operations import GenerateRandomAttribute
+    W = "GenerateRandomAttribute"
+    for only_leaf in (False, True):
+        model = S.build(spec)
+        first = GenerateRandomAttribute()
+        first.set_name("cost")
+        first.set_domain(Domain([Range(0, 9)], None))
+        first.set_only_leaf_features(only_leaf)
+        try:
+            first.execute(model)
+        except Exception:  # noqa: BLE001 - judged by run_gra_case
+            continue
+        op = GenerateRandomAttribute()
+        op.set_name("cost")
+        op.set_only_leaf_features(only_leaf)
+        payload = {"kind": "gra-missing-domain", "how": "all-targets-have-it", "spec": spec}
+        before = S.snapshot(model)
+        try:
+            op.execute(model)
+            acc.fail("gra:missing-domain", "missing-domain-is-library-error", W, ["domain:never-set+all-targets-have-the-attribute"],
+                     "no-error", "execute() without a domain returned without error (every targeted feature already had the attribute)", payload)
+        except FlamaException:
+            if S.snapshot(model) != before:
+                acc.fail("gra:missing-domain", "missing-domain-is-library-error", W, ["domain:never-set+all-targets-have-the-attribute"],
+                         "mutated-before-error", "model changed", payload)
+            else:
+                acc.held("gra:missing-domain", S.digest(["all-have", only_leaf, spec]))
+        except Exception as e:  # noqa: BLE001
+            acc.fail("gra:missing-domain", "missing-domain-is-library-error", W, ["domain:never-set+all-targets-have-the-attribute"],
+                     f"raises:{type(e).__name__}", f"{type(e).__name__}: {e}", payload)
+
+
 def run_gra_after_failure(acc, spec_x, spec_y, rseed):
     """History: an execution on model X is rejected (missing domain); the domain is then set and the SAME
     operation object is executed on a different model Y.  X must stay untouched and Y must get exactly what a
@@ -545,6 +582,7 @@ def run_gra(acc, desc):
             run_gra_case(acc, spec, dkind, ranges, elements, only_leaf, s, preset, payload)
         if j < 3 * n:
             run_gra_missing_domain(acc, spec)
+            run_gra_missing_domain_all_have(acc, spec)
             other = rand.rand_model(rand.rng(seed, "c19gra-other", j), r.randint(2, 12),
                                     group_kinds=("alternative", "or"))
             run_gra_after_failure(acc, spec, other, j)
